@@ -15,7 +15,8 @@ Eval(r) == LET P == Pos(r)  C == Cell(r)  per == r.periodic
                allp == SeqOf(AllPairs(Atoms, Residues))
                given == [i \in 1..Len(r.pairs) |-> <<r.pairs[i][1], r.pairs[i][2]>>]
                contacts(pl) == [s \in 1..5 |-> [i \in 1..Len(pl) |-> <<pl[i][1], pl[i][2], ContactD2(Atoms, Residues, P, C, per, Schemes[s], pl[i][1], pl[i][2])>>]]
-               mixed == << <<1, 3>>, <<1, 5>>, <<2, 4>>, <<5, 9>>, <<3, 7>> >>       \* pairs with residues (waters) that have no CA / side chain
+               mixed == [i \in 1..Len(r.mixed) |-> <<r.mixed[i][1], r.mixed[i][2]>>]     \* may contain residues (waters) without CA / side chain
+               allsm == [s \in 1..5 |-> [i \in 1..Len(given) |-> ContactAllD2(Atoms, Residues, P, C, per, Schemes[s], given[i][1], given[i][2])]]
                gy == GyrN2(P)
                bonds == [b \in 1..Len(Top.bonds) |-> <<Top.bonds[b][1], Top.bonds[b][2]>>]
                selq == [m \in 1..Len(r.sel) |-> r.sel[m]]
@@ -23,7 +24,7 @@ Eval(r) == LET P == Pos(r)  C == Cell(r)  per == r.periodic
                \* bookkeeping invariants: the tensor is symmetric with trace N^2 Rg^2; histogram counts sum to the in-range pairs
                ok == /\ gy[1][2] = gy[2][1] /\ gy[1][3] = gy[3][1] /\ gy[2][3] = gy[3][2]
                      /\ gy[1][1] + gy[2][2] + gy[3][3] = Rg2N2(P)
-           IN PrintT(<<"D", r.id, ToJson([all |-> contacts(allp), given |-> contacts(given), mixed |-> contacts(mixed), com |-> ComNum(Atoms, P), mass |-> MassSum(Atoms), cog |-> CogNum(P),
+           IN PrintT(<<"D", r.id, ToJson([all |-> contacts(allp), given |-> contacts(given), mixed |-> contacts(mixed), allsm |-> allsm, com |-> ComNum(Atoms, P), mass |-> MassSum(Atoms), cog |-> CogNum(P),
                                          rg |-> Rg2N2(P), rgw |-> RgW([i \in 1..Len(Atoms) |-> Atoms[i].w], P), gyr |-> gy,
                                          rdf |-> RdfCounts(P, C, per, [i \in 1..Len(r.rdfpairs) |-> <<r.rdfpairs[i][1], r.rdfpairs[i][2]>>], 0, 10),
                                          drid |-> [m \in 1..Len(selq) |-> DridD2(P, bonds, sel, selq[m])],
